@@ -7,7 +7,9 @@ Stage 2 (correspondence): every generated history is replayed through the RELEAS
   argv_to_call(options) = the library calls made, and cli_exit(library outcome) = exit status.
 Stage 3 (direct search, model-free): repository trees equal, cat stdout byte-identical,
   one listing entry per library result, exit status 0 iff the library succeeded,
-  validate verdicts under generated -p/-n/-l/-e/-w options vs the library's results.
+  validate verdicts under generated -p/-n/-l/-e/-w options vs the library's results; what
+  validate writes about the storage root / hierarchy vs the library's results minus the
+  suppressed codes (regression inputs of /repo 33c0c45: `validate -e <storage-root code>`).
 """
 import copy
 import hashlib
@@ -22,7 +24,6 @@ import time
 from vplib import common, hist
 from vplib.common import coq_str, coq_bool
 
-KNOWN_ROOT = "validate-root-suppression"
 SUBCOMMANDS = ["init", "new", "cp", "mv", "rm", "reset", "commit", "upgrade", "purge", "ls", "cat",
                "log", "show", "diff", "status", "validate", "info"]
 
@@ -668,10 +669,10 @@ class Replay:
         self.cli.subs[o["sub"]] = self.cli.subs.get(o["sub"], 0) + 1
         root = g.get("root") if g.get("root") is not None else "."
         rec = {"h": self.hi, "step": self.step, "what": what or o["sub"], "argv": argv, "rc": rc,
-               "g": coq_globals(g), "s": coq_subcmd(o), "outcome": outcome, "printed": None,
+               "g": coq_globals(g), "s": coq_subcmd(o), "outcome": outcome, "printed": None, "storage": None,
                "dispatch": dispatch or "(Calls %s %s %s %s)" % (coq_bool(o["sub"] != "init"), cb(root),
                                                                  copt(g.get("staging")), coq_calls(o, root, g.get("staging"))),
-               "lib": lib_summary, "msgs": [], "known": False, "desc": self.desc,
+               "lib": lib_summary, "msgs": [], "desc": self.desc,
                "stderr": err[-400:].decode("utf-8", "replace")}
         self.recs.append(rec)
         if cli_panicked(rc, err):
@@ -1204,7 +1205,17 @@ class Replay:
 
     # -- validate and ls on deliberately damaged copies -----------------------------------------
     CORRUPTIONS = ["del_content", "sidecar", "stray_root_file", "stray_hier_file", "empty_dir", "rm_root_decl",
-                   "bad_root_decl", "second_root_decl", "bad_inventory", "rm_obj_decl", "unknown_ext", "alter_content"]
+                   "bad_root_decl", "second_root_decl", "bad_inventory", "rm_obj_decl", "unknown_ext", "alter_content",
+                   "ext_root_file"]
+    # Damage that makes the STORAGE ROOT result non-empty (E069 / E080 / E076 / E112, warning W016), alone and
+    # next to an invalid object or a storage hierarchy error: `validate -e/-w` must honour the suppression of
+    # these codes (src/cmd/validate.rs:144, repaired by /repo 33c0c45).  Every combination is applied to the
+    # fixed tour in every run; the generated histories take one each in turn.
+    ROOT_COMBOS = [["rm_root_decl"], ["bad_root_decl"], ["second_root_decl"], ["ext_root_file"], ["unknown_ext"],
+                   ["rm_root_decl", "ext_root_file"], ["bad_root_decl", "second_root_decl", "unknown_ext"],
+                   ["rm_root_decl", "bad_inventory"], ["bad_root_decl", "del_content"],
+                   ["second_root_decl", "stray_hier_file"], ["rm_root_decl", "ext_root_file", "stray_hier_file", "alter_content"],
+                   ["unknown_ext", "ext_root_file", "empty_dir"]]
 
     def corrupt(self, root, kind):
         rng = self.rng
@@ -1263,12 +1274,23 @@ class Replay:
             os.remove(os.path.join(obj, decl[0]))
         elif kind == "unknown_ext":
             os.makedirs(os.path.join(root, "extensions", "9999-not-registered"), exist_ok=True)
+        elif kind == "ext_root_file":
+            os.makedirs(os.path.join(root, "extensions"), exist_ok=True)
+            open(os.path.join(root, "extensions", "stray-file.txt"), "w").write("a file is not allowed here\n")
         return True
 
     def validate_scenarios(self):
         rng = self.rng
         n = 3 if self.ctx.quick() else 6
         saved = (self.h, self.g)
+        forced = {}
+        if self.hi == 0:
+            forced = {1: ["rm_root_decl"], 2: ["bad_inventory"]}
+            for combo in self.ROOT_COMBOS[1:]:
+                forced[n + len(forced) - 2] = combo
+            n += len(self.ROOT_COMBOS) - 1
+        else:
+            forced = {1: self.ROOT_COMBOS[(self.hi - 1) % len(self.ROOT_COMBOS)]}
         for k in range(n):
             copy_root = os.path.join(self.lib.sc.base, "val%d" % k)
             shutil.copytree(self.lib.root, copy_root, symlinks=True)
@@ -1277,9 +1299,8 @@ class Replay:
                 stg = copy_root + "-stg"
                 shutil.copytree(self.lib.stg, stg, symlinks=True)
             applied = []
-            if self.hi == 0 and k in (1, 2):
-                kind = {1: "rm_root_decl", 2: "bad_inventory"}[k]
-                applied = [kind] if self.corrupt(copy_root, kind) else []
+            if k in forced:
+                applied = [kind for kind in forced[k] if self.corrupt(copy_root, kind)]
             elif k > 0:
                 for kind in rng.sample(self.CORRUPTIONS, rng.choice([1, 1, 2])):
                     if self.corrupt(copy_root, kind):
@@ -1352,46 +1373,138 @@ class Replay:
     ERR_UNIVERSE = ["E%03d" % i for i in (1, 3, 23, 33, 37, 60, 69, 72, 73, 76, 80, 81, 92, 93, 107)]
     WARN_UNIVERSE = ["W%03d" % i for i in (1, 4, 5, 7, 9, 10, 13)]
 
+    @staticmethod
+    def parse_storage_output(out_lines):
+        """what validate wrote about the storage itself: {"root": None | (errors, warnings), "hierarchy": ..,
+        "issues": int | None}; the codes of a block in the order printed"""
+        res = {"root": None, "hierarchy": None, "issues": None}
+        cur = None
+        for l in out_lines:
+            m = re.match(r"^Storage (root|hierarchy) is (valid|invalid|valid with warnings)$", l)
+            if m:
+                cur = m.group(1)
+                res[cur] = ([], [])
+                continue
+            if re.match(r"^Object .* is (valid|invalid|valid with warnings)$", l) or l == "Summary:":
+                cur = None
+                continue
+            m = re.match(r"^  Storage issues:\s+(\d+)$", l)
+            if m:
+                res["issues"] = int(m.group(1))
+                continue
+            m = re.match(r"^\s+\d+\. \[([EW])(\d{3})\] ", l)
+            if m and cur is not None:
+                res[cur][0 if m.group(1) == "E" else 1].append(m.group(1) + m.group(2))
+        return res
+
+    def check_storage_output(self, rec, out, o, v):
+        """model-free: the storage root / hierarchy blocks and the summary against the library's results
+        minus the codes the user suppressed"""
+        so = self.parse_storage_output(self.lines(out))
+        e_sup, w_sup = set(o["e"]), set(o["w"])
+        left = 0
+        for loc in ("root", "hierarchy"):
+            lib_e = [e[0] for e in v[loc]["errors"]]
+            lib_w = [w[0] for w in v[loc]["warnings"]]
+            want_e = [c for c in lib_e if c not in e_sup]
+            left += len(want_e)
+            blk = so[loc]
+            shown_e, shown_w = blk if blk is not None else ([], [])
+            for c in shown_e + shown_w:
+                if c in e_sup or c in w_sup:
+                    rec["msgs"].append("validate lists the suppressed code %s in the storage %s block" % (c, loc))
+            if sorted(shown_e) != sorted(want_e):
+                rec["msgs"].append("storage %s block lists the errors %r; the library reports %r, -e %s leaves %r" % (
+                    loc, shown_e, lib_e, " ".join(o["e"]) or "(none)", want_e))
+            if o["l"] != "error":
+                want_w = [c for c in lib_w if c not in w_sup]
+                if sorted(shown_w) != sorted(want_w):
+                    rec["msgs"].append("storage %s block lists the warnings %r; the library reports %r, -w %s leaves %r" % (
+                        loc, shown_w, lib_w, " ".join(o["w"]) or "(none)", want_w))
+        if so["issues"] is None:
+            rec["msgs"].append("validate did not write the `Storage issues:` line of the summary")
+        elif so["issues"] != left:
+            rec["msgs"].append("summary reports %d storage issues; %d storage errors are left after -e %s" % (
+                so["issues"], left, " ".join(o["e"]) or "(none)"))
+
+        def blk_term(bk):
+            if bk is None:
+                return "None"
+            return "(Some (%s, %s))" % (clist(bk[0], lambda c: cnum(code_num(c))), clist(bk[1], lambda c: cnum(code_num(c))))
+        if so["issues"] is not None:
+            rec["storage"] = "(Some (mkSO %s %s %d))" % (blk_term(so["root"]), blk_term(so["hierarchy"]), so["issues"])
+
     def validate_repo_mode(self, root):
         rng = self.rng
         libs = {}
         combos = 4 if self.ctx.quick() else 8
         first = self.call("validate_repo", fixity=True)
         libs[True] = first
-        present_e, present_w, root_e = set(), set(), set()
+        present_e, present_w, root_e, root_w, hier_e, obj_e = set(), set(), set(), set(), set(), set()
         if "ok" in first:
             v = first["ok"]
             root_e = {e[0] for e in v["root"]["errors"]}
+            root_w = {w[0] for w in v["root"]["warnings"]}
+            hier_e = {e[0] for e in v["hierarchy"]["errors"]}
+            for x in v["objects"]:
+                if "ok" in x:
+                    obj_e |= {e[0] for e in x["ok"]["errors"]}
             for part in [v["root"], v["hierarchy"]] + [x["ok"] for x in v["objects"] if "ok" in x]:
                 present_e |= {e[0] for e in part["errors"]}
                 present_w |= {w[0] for w in part["warnings"]}
         esets = self.code_sets(present_e, self.ERR_UNIVERSE, must=root_e)
-        wsets = self.code_sets(present_w, self.WARN_UNIVERSE)
+        wsets = self.code_sets(present_w, self.WARN_UNIVERSE, must=root_w)
         chosen = [(esets[i % len(esets)], rng.choice(wsets)) for i in range(combos)]
-        for e, w in chosen:
+        if root_e or root_w:
+            # the storage root result is not empty: -e / -w on exactly its codes (alone: the exit status
+            # must become 0 when nothing else is invalid), on all but one of them (a suppressed root error
+            # next to an unsuppressed one), together with the codes of the hierarchy / of the objects
+            re_, rw_ = sorted(root_e), sorted(root_w)
+            targeted = [(re_, []), (re_, rw_), ([], rw_)]
+            if len(re_) >= 2:
+                drop = rng.choice(re_)
+                targeted += [([c for c in re_ if c != drop], rw_), ([drop], [])]
+            if hier_e:
+                targeted += [(sorted(root_e | hier_e), rng.choice(wsets)), (sorted(hier_e - root_e), rw_)]
+            if obj_e:
+                targeted += [(sorted(root_e | obj_e), rng.choice(wsets))]
+            seen = set()
+            chosen = [c for c in targeted + chosen
+                      if not (json.dumps(c) in seen or seen.add(json.dumps(c)))]
+        for i, (e, w) in enumerate(chosen):
             nofix = rng.random() < 0.4
             if (not nofix) not in libs:
                 libs[not nofix] = self.call("validate_repo", fixity=not nofix)
             lib = libs[not nofix]
             o = self.validate_opts(e, w, rng.choice([None, "info", "warn", "error"]), rng.random() < 0.2, nofix, [])
             o["call"] = {"cmd": "validate_repo", "fixity": not nofix}
+            cls = None
             if "ok" in lib:
                 v = lib["ok"]
                 outcome = "(OValidateRepo %s (Some (mkRR %s %s %s)))" % (
                     coq_vflags(o), coq_vresult(v["root"]), "[" + "; ".join(coq_vobj(x) for x in v["objects"]) + "]", coq_vresult(v["hierarchy"]))
                 want = self.py_exit(set(e), [v["root"], v["hierarchy"]], v["objects"])
-                in_class = bool(root_e_now(v) & set(e)) and want != 2
+                # classes of the inputs that exercise validate.rs:144
+                sup_root = root_e_now(v) & set(e)
+                if sup_root:
+                    uns = lambda r: any(x[0] not in e for x in r["errors"])
+                    others = [n for n, c in (("unsuppressed-root-error", uns(v["root"])),
+                                             ("invalid-object", any("ok" in x and uns(x["ok"]) for x in v["objects"])),
+                                             ("hierarchy-error", uns(v["hierarchy"]))) if c]
+                    cls = "root-error-suppressed:" + ("+".join(others) if others else "nothing-else-invalid")
+                    self.stat("validate_repo:" + cls)
+                if {x[0] for x in v["root"]["warnings"]} & set(w):
+                    self.stat("validate_repo:root-warning-suppressed")
             else:
-                outcome, want, in_class = "(OValidateRepo %s None)" % coq_vflags(o), 1, False
-            rec, out, err = self.invoke(o, outcome, {"expected_exit": want, "suppress_error": e}, what="validate repository")
+                outcome, want = "(OValidateRepo %s None)" % coq_vflags(o), 1
+            rec, out, err = self.invoke(o, outcome, {"expected_exit": want, "suppress_error": e, "suppress_warning": w, "class": cls},
+                                        what="validate repository")
             self.stat("validate_repo:exit%d" % rec["rc"])
             if rec["rc"] != want:
-                if in_class and rec["rc"] == 2:
-                    rec["known"] = True
-                else:
-                    rec["msgs"].append("validate exit status %d; the library's results under -e %s give %d" % (rec["rc"], " ".join(e) or "(none)", want))
+                rec["msgs"].append("validate exit status %d; the library's results under -e %s give %d" % (rec["rc"], " ".join(e) or "(none)", want))
             if "ok" in lib:
                 self.check_validate_output(rec, out, o, lib["ok"]["objects"])
+                self.check_storage_output(rec, out, o, lib["ok"])
 
     def validate_objects_mode(self, root):
         rng = self.rng
@@ -1527,37 +1640,30 @@ def evaluate(ctx, recs):
     for r in recs:
         rc = r["rc"] if r["rc"] >= 0 else 1000 - r["rc"]
         pr = "None" if r["printed"] is None else "(Some %d)" % r["printed"]
-        terms.append("check_step %s %s %s %s %d %s" % (r["g"], r["s"], r["dispatch"], r["outcome"], rc, pr))
-    res = common.coq_eval("c20", ["Base.Bytes", "Model.Cli", "Model.KnownC20", "Corr.CheckCli"], terms, batch=60)
-    known_listed = KNOWN_ROOT in {k["id"] for k in ctx.known}
+        terms.append("check_step %s %s %s %s %d %s %s" % (r["g"], r["s"], r["dispatch"], r["outcome"], rc, pr, r["storage"] or "None"))
+    res = common.coq_eval("c20", ["Base.Bytes", "Model.Cli", "Corr.CheckCli"], terms, batch=60)
     n_viol = 0
-    fixed_seen = 0
     for r, v in zip(recs, res):
         flags = re.findall(r"true|false", v)
-        argv_ok, exit_p, exit_f, printed_ok, in_class = [x == "true" for x in flags]
+        argv_ok, exit_ok, printed_ok, storage_ok = [x == "true" for x in flags]
         ctx.count((r["what"], r["rc"], json.dumps(r["lib"], sort_keys=True, default=str), r["s"][:40]), nontrivial=True,
                   sample={"argv": r["argv"], "exit": r["rc"], "library": r["lib"], "model": v})
         detail = {"input": {"argv": r["argv"], "history": r["desc"], "step": r["step"], "what": r["what"]},
                   "observed": {"exit_status": r["rc"], "stderr_tail": r["stderr"], "library": r["lib"]}}
-        if r["known"] and not known_listed:
-            r["msgs"].append("validate -e on a storage-root error still exits with 2 (src/cmd/validate.rs:144) and the finding is not listed as known")
         if r["msgs"]:
             n_viol += 1
             if n_viol <= 5:
                 ctx.violation("impl-violation", dict(detail, expected="; ".join(r["msgs"])))
             continue
-        if r["known"]:
-            ctx.known_hit(KNOWN_ROOT)
-        if in_class and not r["known"]:
-            fixed_seen += 1                      # the class was reached and the binary behaved as the repaired model
         if not argv_ok:
             common.corr_break(ctx, "Corr.CheckCli check_argv (Model/Cli.v argv_to_call vs the calls the driver made)", detail)
-        elif not (exit_p or exit_f):
+        elif not exit_ok:
             common.corr_break(ctx, "Corr.CheckCli check_exit (Model/Cli.v cli_exit vs the exit status of the binary)", dict(detail, model=v))
         elif not printed_ok:
             common.corr_break(ctx, "Corr.CheckCli check_printed (validate should_print / -l level)", dict(detail, model=v))
-    if fixed_seen:
-        ctx.coverage["known_class_reached_but_repaired"] = fixed_seen
+        elif not storage_ok:
+            common.corr_break(ctx, "Corr.CheckCli check_storage (Model/Cli.v validate_repo_root_block / _hier_block / _storage_issues vs stdout)",
+                              dict(detail, model=v, parsed=r["storage"]))
     return n_viol
 
 
@@ -1578,6 +1684,10 @@ def finish(ctx, proof, recs, stats, cli):
     ctx.coverage["subcommands_invoked"] = cli.subs
     ctx.coverage["subcommands_never_invoked"] = missing
     ctx.coverage["distribution"] = stats
+    # the inputs on which /repo 33c0c45 changed the behaviour (former known finding validate-root-suppression) and
+    # their neighbours: now must-pass inputs
+    ctx.coverage["validate_root_suppression_inputs"] = {k.split(":", 1)[1]: v for k, v in stats.items()
+                                                        if k.startswith("validate_repo:root-")}
     ctx.coverage["traces_validated_against_impl"] = len(recs)
     ctx.coverage["binary_invocations"] = cli.n
     ctx.level = "proof"
